@@ -20,8 +20,32 @@ type tree interface {
 }
 
 func initializeTree(cfg *config) tree {
+	if cfg.encode == encodeDefault {
+		return newTree(cfg)
+	}
+	// An encoding option concerns output only: encoded output does not form the branches and paths of the nodes,
+	// which mkdir, verify and walk need.
+	plain := *cfg
+	plain.encode = encodeDefault
+	return &treeWithEncodedOutput{tree: newTree(&plain), encoded: newTree(cfg)}
+}
+
+func newTree(cfg *config) tree {
 	if cfg.massive {
 		return newTreePipeline(cfg)
 	}
 	return newTreeSimple(cfg)
+}
+
+type treeWithEncodedOutput struct {
+	tree
+	encoded tree
+}
+
+func (t *treeWithEncodedOutput) output(w io.Writer, r io.Reader, cfg *config) error {
+	return t.encoded.output(w, r, cfg)
+}
+
+func (t *treeWithEncodedOutput) outputProgrammably(w io.Writer, root *Node, cfg *config) error {
+	return t.encoded.outputProgrammably(w, root, cfg)
 }
